@@ -100,6 +100,8 @@ where
     /// This method populates the roadmap by sampling states and connecting them until the
     /// specified timeout is reached.
     pub fn construct_roadmap(&mut self) -> Result<(), PlanningError> {
+        #[cfg(feature = "verif")]
+        use crate::verif::SimInstant as Instant;
         let pd = self
             .problem_def
             .as_ref()
@@ -234,6 +236,8 @@ where
     }
 
     fn solve(&mut self, timeout: Duration) -> Result<Path<S>, PlanningError> {
+        #[cfg(feature = "verif")]
+        use crate::verif::SimInstant as Instant;
         // Ensure setup has been called.
         let pd = self
             .problem_def
